@@ -226,4 +226,20 @@ META = {
         "note": _common_note + "PARTIAL: the csv/serde quoting layer and zstd are external contracts, exercised end-to-end by the CLI step but not modelled.",
         "technique": "Lean 4 proof (decimal round trip, split/join, spec algebra) + differential correspondence + end-to-end CLI run",
     },
+    "C09": {
+        "text": "Lean theorems with the learner universally quantified (any list of distinct features with quantised weights and any bias): "
+                "assembling the model from features the trainer itself extracts never panics, for every configuration incl. differing "
+                "window sizes (C09_assemble_total); every stored n-gram vector has exactly 2*window-l+1 entries of its OWN window, "
+                "dictionary vectors length+1 entries, windows/bias/dictionary words as configured (C09_vector_shape); and the main "
+                "theorem C09_scores: the assembled model's specified score of every boundary of every text equals the quantised bias "
+                "plus the quantised weight of each feature the trainer extracts for that boundary, with multiplicity — character and "
+                "type n-grams within their own window, left/inside/right dictionary features by length bucket. Composed with C01 "
+                "(predictor = specification) this is the end-to-end statement for windows >= 1. Tied to /repo through hook H1: the Lean "
+                "model must assemble the byte-identical model from the recorded quantised weights, and the harness checks the real "
+                "predictor's scores against bias + sum of the recorded weights over its own feature enumeration.",
+        "design_ref": "DESIGN.md §6 C09",
+        "note": _common_note + "liblinear and the f64 quantisation are outside the model (hook trace). For window size 0 the composition with C01 is not a "
+                "theorem (C01 assumes windows >= 1); that case is covered by the oracle on trained models.",
+        "technique": "Lean 4 proof (fold invariant over sorted association lists; exchange of sums between stored vectors and extracted features) + hook-based differential correspondence",
+    },
 }
